@@ -1,233 +1,128 @@
-import SonicModel.Spec.DomVal
+import SonicModel.Impl.Dom
 namespace Sonic
-namespace Spec
+open Gen Impl Spec
 
-theorem intText_ofNat (n : Nat) : intText (n : Int) = natDigits n := by
-  simp [intText]
-
-theorem renderL_bytes (bs : List UInt8) :
-    DJ.renderL (bs.map fun b => DJ.int b.toNat) = bs.map fun b => natDigits b.toNat := by
-  induction bs with
-  | nil => rfl
-  | cons b r ih => simp [DJ.renderL, DJ.render, intText_ofNat, ih]
+/-- node shape without the back-pointer distance -/
+inductive Shape where
+  | leaf (j : Json)
+  | cont (isObj : Bool) (children : List Shape) (len : Nat)
+  | hdr
+  deriving Repr, Inhabited
 
 mutual
-/-- **writing a value as text equals converting it to a DOM value and writing that**:
-    `to_string(x) = to_string(to_value(x))` on the data model -/
-theorem render_toJ : ∀ v : Val, v.render = v.toJ.render
-  | .bool b => by simp [Val.render, Val.toJ, DJ.render]
-  | .int n => by simp [Val.render, Val.toJ, DJ.render]
-  | .f64 b => by simp [Val.render, Val.toJ, DJ.render]
-  | .str s => by simp [Val.render, Val.toJ, DJ.render]
-  | .unit => by simp [Val.render, Val.toJ, DJ.render]
-  | .none => by simp [Val.render, Val.toJ, DJ.render]
-  | .some v => by simp [Val.render, Val.toJ, render_toJ v]
-  | .seq vs => by simp [Val.render, Val.toJ, DJ.render, renderL_toJ vs]
-  | .map kvs => by simp [Val.render, Val.toJ, DJ.render, renderKV_toJ kvs]
-  | .struct fs => by simp [Val.render, Val.toJ, DJ.render, renderF_toJ fs]
-  | .variant n none => by simp [Val.render, Val.toJ, DJ.render]
-  | .variant n (some v) => by simp [Val.render, Val.toJ, DJ.render, DJ.renderM, joinWith, render_toJ v]
-  | .bytes bs => by simp [Val.render, Val.toJ, DJ.render, renderL_bytes]
-theorem renderL_toJ : ∀ vs : List Val, renderL vs = DJ.renderL (toJL vs)
-  | [] => by simp [renderL, toJL, DJ.renderL]
-  | v :: r => by simp [renderL, toJL, DJ.renderL, render_toJ v, renderL_toJ r]
-theorem renderKV_toJ : ∀ kvs : List (KeyVal × Val), renderKV kvs = DJ.renderM (toJKV kvs)
-  | [] => by simp [renderKV, toJKV, DJ.renderM]
-  | (k, v) :: r => by simp [renderKV, toJKV, DJ.renderM, keyText, render_toJ v, renderKV_toJ r]
-theorem renderF_toJ : ∀ fs : List (List UInt8 × Val), renderF fs = DJ.renderM (toJF fs)
-  | [] => by simp [renderF, toJF, DJ.renderM]
-  | (k, v) :: r => by simp [renderF, toJF, DJ.renderM, render_toJ v, renderF_toJ r]
+def Impl.Node.shape : Node → Shape
+  | .leaf j => .leaf j
+  | .opened _ _ => .hdr
+  | .closed o cs _ len => .cont o (shapes cs) len
+def shapes : List Node → List Shape
+  | [] => []
+  | n :: ns => n.shape :: shapes ns
 end
 
-/-! ### equality -/
+theorem shapes_append (a b : List Node) : shapes (a ++ b) = shapes a ++ shapes b := by
+  induction a with
+  | nil => simp [shapes]
+  | cons x xs ih => simp [shapes, ih]
 
-theorem getFirst_depth (k : List UInt8) (ms : List (List UInt8 × DJ)) (a : DJ) (h : getFirst k ms = some a) :
-    a.depth ≤ DJ.depthM ms := by
-  induction ms with
-  | nil => simp [getFirst] at h
-  | cons m r ih =>
-    obtain ⟨k', v⟩ := m
-    simp only [getFirst] at h
-    split at h
-    · simp at h; subst h; simp [DJ.depthM]; omega
-    · have := ih h; simp [DJ.depthM]; omega
+/-- the shape of the node a tree denotes -/
+def shapeOf : Json → Shape
+  | .arr xs => .cont false (shapeList xs) xs.length
+  | .obj ms => .cont true (shapeMembers ms) ms.length
+  | j => .leaf j
+where
+  shapeList : List Json → List Shape
+    | [] => []
+    | x :: xs => shapeOf x :: shapeList xs
+  shapeMembers : List (List UInt8 × Json) → List Shape
+    | [] => []
+    | (k, x) :: ms => .leaf (.str k) :: shapeOf x :: shapeMembers ms
 
-theorem eqvKeys_refl (f : Nat) (ms : List (List UInt8 × DJ)) (hr : ∀ a, a.depth ≤ DJ.depthM ms → eqv f a a = true) :
-    ∀ ks : List (List UInt8 × DJ), (∀ p ∈ ks, (getFirst p.1 ms).isSome) → eqvKeys f ks ms ms = true := by
-  intro ks
-  induction ks with
-  | nil => intro _; simp [eqvKeys]
-  | cons p rest ih =>
-    intro h
-    obtain ⟨k, v⟩ := p
-    have hk := h (k, v) (by simp)
-    simp only [eqvKeys]
-    cases hg : getFirst k ms with
-    | none => rw [hg] at hk; simp at hk
-    | some a =>
-      simp only [Bool.and_eq_true]
-      exact ⟨hr a (getFirst_depth k ms a hg), ih (fun p hp => h p (by simp [hp]))⟩
+theorem run_append (a b : List Ev) (v : Vis) : v.run (a ++ b) = (v.run a).bind fun v' => v'.run b := by
+  induction a generalizing v with
+  | nil => simp [Vis.run]
+  | cons e es ih =>
+    simp only [List.cons_append, Vis.run]
+    cases v.step e with
+    | none => simp
+    | some v' => simp [ih]
 
-theorem getFirst_self (ms : List (List UInt8 × DJ)) : ∀ p ∈ ms, (getFirst p.1 ms).isSome := by
-  intro p hp
-  induction ms with
-  | nil => simp at hp
-  | cons m r ih =>
-    obtain ⟨k', v⟩ := m
-    simp only [getFirst]
-    split
-    · simp
-    · rename_i hne
-      rcases List.mem_cons.mp hp with rfl | h
-      · simp at hne
-      · exact ih h
+/-- what a finished run looks like: `k` new nodes were pushed, the parent offset is restored, and
+    the back-pointer distance of the first new node (if it is a container) is its distance to
+    the enclosing header -/
+def Pushed (v v' : Vis) (sh : List Shape) : Prop :=
+  ∃ ns, v'.nodes = v.nodes ++ ns ∧ shapes ns = sh ∧ v'.parent = v.parent
 
-/-- **DOM equality is reflexive** (also for objects with duplicated keys) -/
-theorem eqv_refl : ∀ (f : Nat) (a : DJ), a.depth ≤ f → eqv f a a = true := by
-  intro f
-  induction f with
-  | zero => intro a h; cases a <;> simp [DJ.depth] at h
-  | succ f ih =>
-    intro a h
-    cases a with
-    | arr xs =>
-      simp only [eqv]
-      simp only [DJ.depth] at h
-      have : ∀ l : List DJ, DJ.depthL l ≤ f → eqvL f l l = true := by
-        intro l
-        induction l with
-        | nil => intro _; simp [eqvL]
-        | cons x r ihl =>
-          intro hl
-          simp only [DJ.depthL] at hl
-          simp only [eqvL, Bool.and_eq_true]
-          exact ⟨ih x (by omega), ihl (by omega)⟩
-      exact this xs (by omega)
-    | obj ms =>
-      simp only [eqv, Bool.and_eq_true, beq_self_eq_true, true_and]
-      simp only [DJ.depth] at h
-      have := eqvKeys_refl f ms (fun a ha => ih a (by omega)) ms (getFirst_self ms)
-      refine ⟨this, ?_⟩
-      simp only [keysIn, List.all_eq_true]
-      exact getFirst_self ms
-    | _ => simp [eqv, f64Eq]
+mutual
+/-- **stack discipline**: visiting the events of a tree pushes exactly one node with the tree's
+    shape and restores `parent`, whatever the stack held before -/
+theorem run_tree : ∀ (j : Json) (v : Vis), ∃ v', v.run (evOf j) = some v' ∧ Pushed v v' [shapeOf j]
+  | .null, v => ⟨{ v with nodes := v.nodes ++ [.leaf .null] }, by simp [evOf, Vis.run, Vis.step], ⟨[.leaf .null], rfl, by simp [shapes, Node.shape, shapeOf], rfl⟩⟩
+  | .bool b, v => ⟨{ v with nodes := v.nodes ++ [.leaf (.bool b)] }, by simp [evOf, Vis.run, Vis.step], ⟨[.leaf (.bool b)], rfl, by simp [shapes, Node.shape, shapeOf], rfl⟩⟩
+  | .num s e, v => ⟨{ v with nodes := v.nodes ++ [.leaf (.num s e)] }, by simp [evOf, Vis.run, Vis.step], ⟨[.leaf (.num s e)], rfl, by simp [shapes, Node.shape, shapeOf], rfl⟩⟩
+  | .str s, v => ⟨{ v with nodes := v.nodes ++ [.leaf (.str s)] }, by simp [evOf, Vis.run, Vis.step], ⟨[.leaf (.str s)], rfl, by simp [shapes, Node.shape, shapeOf], rfl⟩⟩
+  | .arr xs, v => by
+    obtain ⟨v2, h2, ns, hn, hs, hp⟩ := run_list xs { nodes := v.nodes ++ [.opened false v.parent], parent := v.nodes.length }
+    simp only at hn hp
+    refine ⟨{ nodes := v.nodes ++ [.closed false (if xs.length == 0 then [] else ns) (v.nodes.length - v.parent) xs.length], parent := v.parent }, ?_, ?_⟩
+    · simp only [evOf, run_append, Vis.run, Vis.step, Option.bind_some, h2]
+      have hidx : v2.nodes[v2.parent]? = some (.opened false v.parent) := by
+        rw [hn, hp]; simp [List.getElem?_append]
+      simp only [hidx, bne_self_eq_false, Bool.false_eq_true, ite_false]
+      have hdrop : v2.nodes.drop (v2.parent + 1) = ns := by
+        rw [hn, hp]; simp [List.drop_append]
+      have htake : v2.nodes.take v2.parent = v.nodes := by
+        rw [hn, hp]; simp [List.take_append]
+      rw [hp] at hdrop htake
+      simp [hdrop, htake, hp]
+    · refine ⟨[_], rfl, ?_, rfl⟩
+      simp only [shapes, Node.shape, shapeOf]
+      cases xs with
+      | nil =>
+        simp only [List.length_nil, beq_self_eq_true, ite_true, shapes]
+        simp [shapeOf.shapeList]
+      | cons x rest => simp [hs]
+  | .obj ms, v => by
+    obtain ⟨v2, h2, ns, hn, hs, hp⟩ := run_members ms { nodes := v.nodes ++ [.opened true v.parent], parent := v.nodes.length }
+    simp only at hn hp
+    refine ⟨{ nodes := v.nodes ++ [.closed true (if ms.length == 0 then [] else ns) (v.nodes.length - v.parent) ms.length], parent := v.parent }, ?_, ?_⟩
+    · simp only [evOf, run_append, Vis.run, Vis.step, Option.bind_some, h2]
+      have hidx : v2.nodes[v2.parent]? = some (.opened true v.parent) := by
+        rw [hn, hp]; simp [List.getElem?_append]
+      simp only [hidx, bne_self_eq_false, Bool.false_eq_true, ite_false]
+      have hdrop : v2.nodes.drop (v2.parent + 1) = ns := by
+        rw [hn, hp]; simp [List.drop_append]
+      have htake : v2.nodes.take v2.parent = v.nodes := by
+        rw [hn, hp]; simp [List.take_append]
+      rw [hp] at hdrop htake
+      simp [hdrop, htake, hp]
+    · refine ⟨[_], rfl, ?_, rfl⟩
+      simp only [shapes, Node.shape, shapeOf]
+      cases ms with
+      | nil =>
+        simp only [List.length_nil, beq_self_eq_true, ite_true, shapes]
+        simp [shapeOf.shapeMembers]
+      | cons x rest => simp [hs]
+theorem run_list : ∀ (xs : List Json) (v : Vis), ∃ v', v.run (evOf.evList xs) = some v' ∧ Pushed v v' (shapeOf.shapeList xs)
+  | [], v => ⟨v, by simp [evOf.evList, Vis.run], ⟨[], by simp, by simp [shapes, shapeOf.shapeList], rfl⟩⟩
+  | x :: xs, v => by
+    obtain ⟨v1, h1, n1, hn1, hs1, hp1⟩ := run_tree x v
+    obtain ⟨v2, h2, n2, hn2, hs2, hp2⟩ := run_list xs v1
+    refine ⟨v2, by simp [evOf.evList, run_append, h1, h2], ⟨n1 ++ n2, ?_, ?_, ?_⟩⟩
+    · rw [hn2, hn1]; simp
+    · rw [shapes_append, hs1, hs2]; simp [shapeOf.shapeList]
+    · rw [hp2, hp1]
+theorem run_members : ∀ (ms : List (List UInt8 × Json)) (v : Vis),
+    ∃ v', v.run (evOf.evMembers ms) = some v' ∧ Pushed v v' (shapeOf.shapeMembers ms)
+  | [], v => ⟨v, by simp [evOf.evMembers, Vis.run], ⟨[], by simp, by simp [shapes, shapeOf.shapeMembers], rfl⟩⟩
+  | (k, x) :: ms, v => by
+    obtain ⟨v1, h1, n1, hn1, hs1, hp1⟩ := run_tree x { v with nodes := v.nodes ++ [.leaf (.str k)] }
+    obtain ⟨v2, h2, n2, hn2, hs2, hp2⟩ := run_members ms v1
+    refine ⟨v2, ?_, ⟨[.leaf (.str k)] ++ n1 ++ n2, ?_, ?_, ?_⟩⟩
+    · simp only [evOf.evMembers, run_append, Vis.run, Vis.step, Option.bind_some]
+      simp [h1, h2]
+    · rw [hn2, hn1]; simp
+    · rw [shapes_append, shapes_append, hs1, hs2]; simp [shapes, Node.shape, shapeOf.shapeMembers]
+    · rw [hp2, hp1]
+end
 
-theorem getFirst_mem (k : List UInt8) (ms : List (List UInt8 × DJ)) (a : DJ) (h : getFirst k ms = some a) : (k, a) ∈ ms := by
-  induction ms with
-  | nil => simp [getFirst] at h
-  | cons m r ih =>
-    obtain ⟨k', v⟩ := m
-    simp only [getFirst] at h
-    split at h
-    · rename_i e; simp at h; subst h; subst e; simp
-    · simp [ih h]
-
-/-- the comparison of one key -/
-def cmpKey (f : Nat) (x y : Option DJ) : Bool :=
-  match x, y with
-  | some a, some b => eqv f a b
-  | none, none => true
-  | _, _ => false
-
-theorem eqvKeys_iff (f : Nat) (ms ns : List (List UInt8 × DJ)) : ∀ ks : List (List UInt8 × DJ),
-    eqvKeys f ks ms ns = true ↔ ∀ p ∈ ks, cmpKey f (getFirst p.1 ms) (getFirst p.1 ns) = true := by
-  intro ks
-  induction ks with
-  | nil => simp [eqvKeys]
-  | cons p rest ih =>
-    obtain ⟨k, v⟩ := p
-    simp only [eqvKeys, Bool.and_eq_true, ih, List.mem_cons, forall_eq_or_imp]
-    constructor
-    · rintro ⟨h1, h2⟩
-      refine ⟨?_, h2⟩
-      unfold cmpKey
-      cases hm : getFirst k ms <;> cases hn : getFirst k ns <;> simp_all
-    · rintro ⟨h1, h2⟩
-      refine ⟨?_, h2⟩
-      unfold cmpKey at h1
-      cases hm : getFirst k ms <;> cases hn : getFirst k ns <;> simp_all
-
-/-- one direction of the symmetry of the object comparison -/
-theorem objEq_swap (f : Nat) (ih : ∀ a b : DJ, eqv f a b = eqv f b a) (ms ns : List (List UInt8 × DJ))
-    (hK : eqvKeys f ms ns ms = true) (hX : keysIn ns ms = true) :
-    eqvKeys f ns ms ns = true ∧ keysIn ms ns = true := by
-  rw [eqvKeys_iff] at hK
-  simp only [keysIn, List.all_eq_true] at hX
-  constructor
-  · rw [eqvKeys_iff]
-    intro p hp
-    -- the key of `p` occurs in `ms`, so the forward comparison covers it
-    have hsome := hX p hp
-    cases hm : getFirst p.1 ms with
-    | none => rw [hm] at hsome; simp at hsome
-    | some a =>
-      have hmem := getFirst_mem p.1 ms a hm
-      have hk := hK (p.1, a) hmem
-      have hk' : cmpKey f (getFirst p.1 ns) (some a) = true := by
-        have e : getFirst (p.1, a).1 ms = some a := hm
-        rw [e] at hk; exact hk
-      cases hn : getFirst p.1 ns with
-      | none => rw [hn] at hk'; simp [cmpKey] at hk'
-      | some b =>
-        rw [hn] at hk'
-        simp only [cmpKey] at hk' ⊢
-        rw [ih a b]; exact hk'
-  · simp only [keysIn, List.all_eq_true]
-    intro p hp
-    have hk := hK p hp
-    have hs := getFirst_self ms p hp
-    cases hm : getFirst p.1 ms with
-    | none => rw [hm] at hs; simp at hs
-    | some a =>
-      rw [hm] at hk
-      cases hn : getFirst p.1 ns with
-      | none => rw [hn] at hk; simp [cmpKey] at hk
-      | some b => simp
-
-/-- **DOM equality is symmetric** (the repaired `Object::eq` also requires every key of the right
-    object to occur in the left one) -/
-theorem eqv_symm : ∀ (f : Nat) (a b : DJ), eqv f a b = eqv f b a := by
-  intro f
-  induction f with
-  | zero => intro a b; simp [eqv]
-  | succ f ih =>
-    intro a b
-    cases a <;> cases b <;> simp only [eqv] <;> try (simp only [Bool.beq_comm])
-    · rename_i x y; simp only [f64Eq]; rw [Bool.beq_comm (a := x) (b := y), Bool.and_comm]
-    · -- arrays
-      rename_i xs ys
-      have : ∀ (l m : List DJ), eqvL f l m = eqvL f m l := by
-        intro l
-        induction l with
-        | nil => intro m; cases m <;> simp [eqvL]
-        | cons x r ihl =>
-          intro m
-          cases m with
-          | nil => simp [eqvL]
-          | cons y s => simp only [eqvL]; rw [ih x y, ihl s]
-      exact this xs ys
-    · -- objects
-      rename_i ms ns
-      have hlen : (ms.length == ns.length) = (ns.length == ms.length) := by
-        rw [Bool.beq_comm]
-      rw [hlen]
-      cases hl : (ns.length == ms.length)
-      · simp
-      · simp only [Bool.true_and]
-        cases h1 : (eqvKeys f ms ns ms && keysIn ns ms) <;> cases h2 : (eqvKeys f ns ms ns && keysIn ms ns) <;> try rfl
-        · -- right true, left false: impossible
-          simp only [Bool.and_eq_true] at h2
-          have := objEq_swap f (fun a b => ih a b) ns ms h2.1 h2.2
-          simp [this.1, this.2] at h1
-        · simp only [Bool.and_eq_true] at h1
-          have := objEq_swap f (fun a b => ih a b) ms ns h1.1 h1.2
-          simp [this.1, this.2] at h2
-
-theorem DJ.eq_symm (a b : DJ) : a.eq b = b.eq a := by
-  unfold DJ.eq
-  rw [Nat.max_comm, eqv_symm]
-
-theorem DJ.eq_refl (a : DJ) : a.eq a = true := eqv_refl _ a (by simp)
-
-end Spec
 end Sonic
